@@ -1,9 +1,11 @@
 // Generic packet harness (C01 C02 C03 C04 C05 C14 C15).  Uses the GENERATED accessor table (build/accessors_gen.h).
 //   parse <Entry> x<bytes>      construct from a buffer;              -> "P <view>" | "E <code>"
 //   new <Class>                 default-construct a root layer         -> "P <view>"
+//   newc <Class>                a PDUCacher<Class> as the root layer (UDP, TCP, IP, ICMP, EthernetII)
 //   push <Class>                append a default-constructed layer (operator/=)
 //   raw x<bytes>                append a RawPDU payload
 //   set <layer> <field> <value> call the setter of the field on layer #<layer> -> "P <view>" | "E <code>" | "N" (no such setter)
+//   val <layer> <field> <value> the printed form of the argument set would pass -> "V <value>"
 //   ser                         size() + serialize()                   -> "S <size> x<bytes> [M <type> <what> <offset>]*"  (M = hook H1 reports)
 //   rt <Entry>                  serialize, re-parse with Entry, serialize again -> "Q <view>" then "S2 <size> x<bytes>"
 //   match x<bytes>              matches_response(buffer placed at the END of a heap block) -> "R 0|1"
@@ -14,6 +16,7 @@
 #include "accessors_gen.h"
 #include <tins/utils/checksum_utils.h>
 #include <memory>
+#include <tins/pdu_cacher.h>
 using namespace Tins;
 using namespace vh;
 
@@ -60,6 +63,17 @@ static void run(const Script& s) {
                 if (!p) { printf("N\n"); continue; }
                 pkt.reset(p);
                 printf("P %s\n", vacc::describe(*pkt).c_str());
+            } else if (op == "newc") {
+                // a PDUCacher<T> around a default-constructed T as the root layer
+                PDU* p = 0;
+                if (t[1] == "UDP") p = new PDUCacher<UDP>(UDP(53, 1234));
+                else if (t[1] == "TCP") p = new PDUCacher<TCP>(TCP(80, 1234));
+                else if (t[1] == "IP") p = new PDUCacher<IP>(IP("10.0.0.2", "10.0.0.1"));
+                else if (t[1] == "ICMP") p = new PDUCacher<ICMP>(ICMP());
+                else if (t[1] == "EthernetII") p = new PDUCacher<EthernetII>(EthernetII());
+                if (!p) { printf("N\n"); continue; }
+                pkt.reset(p);
+                printf("P cacher\n");
             } else if (op == "push" && pkt) {
                 std::unique_ptr<PDU> l(vacc::construct_default(t[1]));
                 if (!l) { printf("N\n"); continue; }
@@ -76,6 +90,12 @@ static void run(const Script& s) {
                 std::string cls = one.str().substr(0, one.str().find(' '));
                 if (!vacc::set_field(*l, cls, t[2], num(t[3]))) { printf("N\n"); continue; }
                 printf("P %s\n", vacc::describe(*pkt).c_str());
+            } else if (op == "val" && pkt) {
+                PDU* l = layer_at(pkt.get(), (int)num(t[1]));
+                if (!l) { printf("N\n"); continue; }
+                std::ostringstream one; vacc::describe_layer(*l, one);
+                std::string cls = one.str().substr(0, one.str().find(' '));
+                printf("V %s\n", vacc::value_of(cls, t[2], num(t[3])).c_str());
             } else if (op == "ser" && pkt) {
                 printf("%s\n", ser(*pkt, "S").c_str());
             } else if (op == "rt" && pkt) {
